@@ -5,16 +5,26 @@ from gen import data, material
 from .common import tolist
 
 LEAN = "PystogVerif.Props.C01"
+LEAN_EXTRA = ["PystogVerif.Props.C01Sg"]
 ENTRIES = ["Transformer.F_to_G", "Transformer.G_to_F", "Transformer.S_to_g", "Transformer.g_to_S"]
 RULE = ("three kinds of case: (a) matched DST grids r_j=j dr, Q_k=k pi/(N dr) with N in 2..400 (thorough 2000), random data vanishing "
         "at both ends: F->G->F, G->F->G, S->g->S, g->S->g and basis-vector partners; (b) closed-form family G(r)=sum A r exp(-a r^2) "
         "<-> F(Q)=sum A sqrt(pi) Q/(4 a^1.5) exp(-Q^2/4a) on fine grids (step<=0.05/sqrt(a), range>=12/sqrt(a)), both directions, "
         "compared with the closed form; non-trivial = N>=3 or at least one family member with A != 0")
-DIST = ["kind"]
+DIST = ["kind", "with_unc"]
 SHRINK = None
 
 
 def gen(rng, i, tier):
+    c = _gen(rng, i, tier)
+    # half of the cases accompany every function with uncertainties proportional to its reduced value (exactly zero where the
+    # reduced function is zero, e.g. at the two end points and at Q = 0 / r = 0): the partner values may not depend on them
+    c["unc"] = float(10 ** rng.uniform(-3, -1)) if rng.random() < 0.5 else None
+    c["with_unc"] = c["unc"] is not None
+    return c
+
+
+def _gen(rng, i, tier):
     if rng.random() < 0.6:
         N = int(rng.integers(2, 120 if tier == "quick" else 2000))
         dr = float(10 ** rng.uniform(-2, 0))
@@ -31,8 +41,30 @@ def gen(rng, i, tier):
     return dict(kind="closed", a=a, A=A, kw=material(rng))
 
 
+_UNC = {"F_to_G": ("dfq", 0.0), "G_to_F": ("dgr", 0.0), "S_to_g": ("dsq", 1.0), "g_to_S": ("dgr", 1.0)}
+
+
+class _T:
+    """the four transforms of this property; when the case carries uncertainties every call is accompanied by
+    c*|reduced value| under the method's documented keyword"""
+
+    def __init__(self, c):
+        self.c = c
+        self.tr = impl.obj("Transformer")
+
+    def __getattr__(self, name):
+        fn = getattr(self.tr, name)
+        if self.c is None:
+            return fn
+        key, base = _UNC[name]
+
+        def call(x, y, xo, **kw):
+            return fn(x, y, xo, **{key: self.c * np.abs(np.asarray(y, dtype=float) - base)}, **kw)
+        return call
+
+
 def evaluate(case):
-    tr = impl.obj("Transformer")
+    tr = _T(case.get("unc"))
     kw = case["kw"]
     fails = []
     if case["kind"] == "matched":
